@@ -9,7 +9,7 @@ from harness import scen, xmlabs
 from harness.props import xmicommon as xc
 
 ID = "C01"
-COQ_TARGETS = ["Lex.vo", "LexProofs.vo", "XmiDoc.vo", "Xmi.vo", "XmiProofs.vo", "ReachProofs.vo", "ReachSpec.vo", "XmiWf.vo", "XmiDocOk.vo",
+COQ_TARGETS = ["Lex.vo", "LexProofs.vo", "XmiDoc.vo", "Xmi.vo", "XmiProofs.vo", "ReachProofs.vo", "ReachSpec.vo", "XmiWf.vo", "XmiDocOk.vo", "XmiResave.vo",
                "XmiLoad.vo", "XmiLoadProofs.vo", "XmiLoadProofs2.vo", "XmiRt.vo", "XmiRtProofs.vo", "CorrC04.vo", "CorrC01.vo", "XmiExample.vo", "Props/C01.vo"]
 PROPS_FILE = "Props/C01.v"
 CORR_IMPORTS = "Base Heap Schema Canon XmiDoc Xmi CorrC01"
@@ -193,8 +193,8 @@ MANIFEST = {
                   "first document is compared with the model writer's, the loaded CAS with the denotation, with the model "
                   "reader's result and with the model's canonical content, and the second document with the first (infoset).",
     "level_note": "Partial: the reader's success is a hypothesis of the round-trip theorem (no totality theorem for the reader "
-                  "model) and `re-save gives the identical document` is proved only as `same denotation, both closed`; both are "
-                  "evaluated on every case. Trusted: Coq kernel + vm_compute; models Reach.v/Xmi.v/XmiLoad.v/XmiDoc.v/Lex.v/"
+                  "model; evaluated on every case); re-save is proved over canonical content (equal content => the same "
+                  "elements, as a Permutation of the document). Trusted: Coq kernel + vm_compute; models Reach.v/Xmi.v/XmiLoad.v/XmiDoc.v/Lex.v/"
                   "Offsets.v; xml.etree; harness/scen.py; float contract.",
     "technique": "Coq proof over an executable Gallina model + in-Coq behavioural correspondence + byte-level oracle for sinks",
     "design_ref": "DESIGN.md section 5, C01; section 4.4",
